@@ -24,21 +24,34 @@ unsigned g_store_calls;                      /* storage operations issued */
 static int next_token(struct scanner_s *scanner)
 __CPROVER_requires(scanner == g_scanner)
 __CPROVER_assigns(SC_FIELDS(scanner), __CPROVER_object_whole(g_tokbuf))
-__CPROVER_ensures(RET == CIF_OK ==> ((int)scanner->ttype >= (int)BLOCK_HEAD && (int)scanner->ttype <= (int)END && scanner->tvalue_start == g_tokbuf
-        && scanner->text_start == g_tokbuf && scanner->tvalue_length <= TOKN && scanner->line >= 1
+/* pointer_in_range_dfcc (lower == upper bound) makes the havocked pointers precise again for symex: a store through a pointer of
+ * unknown value set is encoded as an update of every object (DESIGN 2/p7) */
+__CPROVER_ensures(__CPROVER_pointer_in_range_dfcc(&g_tokbuf[0], scanner->tvalue_start, &g_tokbuf[0]) && __CPROVER_pointer_in_range_dfcc(&g_tokbuf[0], scanner->text_start, &g_tokbuf[0])
+        && __CPROVER_pointer_in_range_dfcc(&g_tokbuf[0], scanner->next_char, &g_tokbuf[TOKN + 1]))
+__CPROVER_ensures(RET == CIF_OK ==> ((int)scanner->ttype >= (int)BLOCK_HEAD && (int)scanner->ttype <= (int)END
+        && scanner->tvalue_length <= TOKN
         && (scanner->next_char == g_tokbuf + scanner->tvalue_length || scanner->next_char == g_tokbuf + scanner->tvalue_length + 1)))
 __CPROVER_ensures((RET == CIF_OK && (scanner->ttype == KEY || scanner->ttype == TKEY)) ==> scanner->next_char == g_tokbuf + scanner->tvalue_length + 1)
+__CPROVER_ensures(scanner->line >= 1)
+/* modelled input bound: save frames nest fewer than 10^6 deep (skip_depth is incremented once per bypassed level) */
+__CPROVER_ensures((RET == CIF_OK && scanner->ttype == FRAME_HEAD) ==> scanner->skip_depth < 999990)
 ;
 
 /* sub-productions: balanced with respect to skip_depth; an item is stored (name given) only outside a skip */
 static int parse_item(struct scanner_s *scanner, cif_container_tp *container, UChar *name)
-__CPROVER_requires(scanner == g_scanner && (name == NULL || (container != NULL && !SKIPPING)))
+__CPROVER_requires(scanner == g_scanner && (name == NULL || !SKIPPING))
 __CPROVER_assigns(SC_FIELDS(scanner), __CPROVER_object_whole(g_tokbuf), g_store_calls)
+__CPROVER_ensures((name == NULL || container == NULL) ==> g_store_calls == OLD(g_store_calls))
+__CPROVER_ensures(__CPROVER_pointer_in_range_dfcc(&g_tokbuf[0], scanner->tvalue_start, &g_tokbuf[TOKN + 1]) && __CPROVER_pointer_in_range_dfcc(&g_tokbuf[0], scanner->text_start, &g_tokbuf[TOKN + 1])
+        && __CPROVER_pointer_in_range_dfcc(&g_tokbuf[0], scanner->next_char, &g_tokbuf[TOKN + 1]))
 __CPROVER_ensures(scanner->line >= 1)
 ;
 static int parse_loop(struct scanner_s *scanner, cif_container_tp *container)
 __CPROVER_requires(scanner == g_scanner)
 __CPROVER_assigns(SC_FIELDS(scanner), __CPROVER_object_whole(g_tokbuf), g_store_calls)
+__CPROVER_ensures((OLD(scanner->skip_depth) > 0 || container == NULL) ==> g_store_calls == OLD(g_store_calls))
+__CPROVER_ensures(__CPROVER_pointer_in_range_dfcc(&g_tokbuf[0], scanner->tvalue_start, &g_tokbuf[TOKN + 1]) && __CPROVER_pointer_in_range_dfcc(&g_tokbuf[0], scanner->text_start, &g_tokbuf[TOKN + 1])
+        && __CPROVER_pointer_in_range_dfcc(&g_tokbuf[0], scanner->next_char, &g_tokbuf[TOKN + 1]))
 __CPROVER_ensures(scanner->line >= 1)
 ;
 
@@ -81,7 +94,7 @@ __CPROVER_ensures(RET == dst)
 ;
 
 static int parse_container(struct scanner_s *scanner, cif_container_tp *container, int is_block)
-__CPROVER_requires(scanner == g_scanner && __CPROVER_rw_ok(scanner, sizeof(*scanner)) && scanner->skip_depth >= 0 && scanner->skip_depth < 1000000 && scanner->line >= 1)
+__CPROVER_requires(scanner == g_scanner && __CPROVER_rw_ok(scanner, sizeof(*scanner)) && scanner->skip_depth >= 0 && scanner->skip_depth < 999995 && scanner->line >= 1)
 __CPROVER_requires(scanner->handler != NULL && __CPROVER_r_ok(scanner->handler, sizeof(cif_handler_tp)) && scanner->error_callback != NULL)
 __CPROVER_assigns(SC_FIELDS(scanner), scanner->skip_depth, __CPROVER_object_whole(g_tokbuf), g_store_calls)
 /* skip_depth accounting: a production entered while skipping leaves the depth as it found it, on every path; entered at depth 0 it
@@ -90,6 +103,10 @@ __CPROVER_ensures(OLD(scanner->skip_depth) > 0 ==> scanner->skip_depth == OLD(sc
 __CPROVER_ensures(OLD(scanner->skip_depth) == 0 ==> (scanner->skip_depth == 0 || scanner->skip_depth == 1))
 /* nothing is stored for a bypassed container */
 __CPROVER_ensures(OLD(scanner->skip_depth) > 0 ==> g_store_calls == OLD(g_store_calls))
+/* ... nor in syntax-only mode (no target container) */
+__CPROVER_ensures(container == NULL ==> g_store_calls == OLD(g_store_calls))
+__CPROVER_ensures(__CPROVER_pointer_in_range_dfcc(&g_tokbuf[0], scanner->tvalue_start, &g_tokbuf[TOKN + 1]) && __CPROVER_pointer_in_range_dfcc(&g_tokbuf[0], scanner->text_start, &g_tokbuf[TOKN + 1])
+        && __CPROVER_pointer_in_range_dfcc(&g_tokbuf[0], scanner->next_char, &g_tokbuf[TOKN + 1]))
 __CPROVER_ensures(scanner->line >= 1)
 ;
 #endif
